@@ -30,8 +30,18 @@ var auditedPrunes = map[string]string{
 	"pkg/dsl.containsOpenGeneric/case *SimpleType":                             "search: stops descending once an open generic parameter has been found",
 	"pkg/dsl.validateUnionCases/case *SimpleType":                              "type arguments are checked through the instantiated definition (ResolvedDefinition carries them after convertGenericReferences)",
 	"pkg/dsl.removeUnusedDeclarationPatterns/case *MemberAccessExpression":     "search: stops once a use of the declared variable has been found",
-	"pkg/dsl.GetProtocolSchema/case TypeDefinition":                    "a definition already added to the schema is not visited again (memo on visitedTypeDefinitions)",
-	"pkg/dsl.validateEnums/body":                                               "enum values and base type are checked at the enum; enums do not nest",
+	"pkg/dsl.GetProtocolSchema/case TypeDefinition":                            "a definition already added to the schema is not visited again (memo on visitedTypeDefinitions)",
+	// evolution analyser (partial-descent mode): paths that visit nothing further
+	"pkg/dsl.getReferencingDefinitions/case TypeDefinition": "a non-alias definition ends an alias chain",
+	"pkg/dsl.getReferencingDefinitions/case *SimpleType":    "only named references are followed; a nil ResolvedDefinition visit is a no-op",
+	"pkg/dsl.getReferencingDefinitions/default(absent)":     "only alias chains are followed: other node kinds end the walk",
+	"pkg/dsl.getBaseDefinition/case TypeDefinition":         "a non-alias definition is the base definition: walk ends",
+	"pkg/dsl.getBaseDefinition/default(absent)":             "only alias chains are followed",
+	"pkg/dsl.resolveGenericDefinition/case TypeDefinition":  "the target definition is found: walk ends",
+	"pkg/dsl.resolveGenericDefinition/default(absent)":      "only alias chains are followed",
+	"pkg/dsl.resolveTo/case TypeDefinition":                 "target found, or a non-alias definition ends the chain",
+	"pkg/dsl.resolveTo/default(absent)":                     "only alias chains are followed",
+	"pkg/dsl.validateEnums/body":                            "enum values and base type are checked at the enum; enums do not nest",
 }
 
 func hasNodeChildren(c *core.Ctx, t types.Type, nodeIface *types.Interface) bool {
@@ -106,7 +116,18 @@ func visitorLits(c *core.Ctx, d *ast.FuncDecl) []visitorLit {
 	return out
 }
 
+// rulePrunesPartial: like rulePrunes, but a path that visits some child explicitly
+// (self.Visit(x)) counts as descending; used for the targeted walks of the evolution
+// analyser, which follow alias/reference links instead of VisitChildren.
+func rulePrunesPartial(scopeFiles func(file string) bool, ruleID string, min int) func(c *core.Ctx) {
+	return rulePrunesImpl(scopeFiles, ruleID, min, true)
+}
+
 func rulePrunes(scopeFiles func(file string) bool, ruleID string, min int) func(c *core.Ctx) {
+	return rulePrunesImpl(scopeFiles, ruleID, min, false)
+}
+
+func rulePrunesImpl(scopeFiles func(file string) bool, ruleID string, min int, partialOK bool) func(c *core.Ctx) {
 	return func(c *core.Ctx) {
 		c.Rule(ruleID, "every path on which a visitor callback returns without self.VisitChildren(node), for a node kind that has children, is an audited prune (table with reasons)", min)
 		dslp := c.Pkg("pkg/dsl")
@@ -155,6 +176,9 @@ func rulePrunes(scopeFiles func(file string) bool, ruleID string, min int) func(
 									if len(ce.Args) >= 1 && nodeAliases[identObj(info, ce.Args[0])] {
 										desc[b] = true
 									}
+								}
+								if sel, ok := ast.Unparen(ce.Fun).(*ast.SelectorExpr); ok && partialOK && sel.Sel.Name == "Visit" && identObj(info, sel.X) == vl.self {
+									desc[b] = true
 								}
 							}
 							return true
